@@ -22,8 +22,19 @@ The model answers `*` (unspecified); the monitor flags panics and hangs.
 -/
 open Refinery.Model.Startup Oracle
 
-/-- the repaired validator / samplers (flipped by the coordinator once the fixes are applied) -/
-def variant : Bool := false
+/-- the proposed repairs, one flag per defect; the coordinator sets a flag to `true` when the
+corresponding `fix:` commit lands in /repo:
+  keyFields    C28:getkeyfields-empty-field-name
+  det          C28:deterministic-samplerate-zero-mod-2^32
+  intn         C28:intn-negative-dynsampler-rate
+  emaInterval  C28:emathroughput-start-error-dropped-nil-map
+  ticker       C28:newticker-non-positive-interval
+  nullElems    C28:rules-null-rule-nil-dereference, C28:rules-null-condition-nil-dereference
+  noSampler    C28:no-sampler-configured-os-exit, C28:empty-downstream-sampler-os-exit
+(the batch array-header repair has no flag: the request path has no model) -/
+def fixes : Fixes :=
+  { keyFields := false, det := false, intn := false, emaInterval := false, ticker := false,
+    nullElems := false, noSampler := false }
 
 def md : Meta := Refinery.Gen.Nocrash.rulesMeta
 
@@ -152,7 +163,7 @@ def step (s : St) (op : List String) (exts : List (List String)) : St × Option 
   | none =>
     match op with
     | ["load"] | ["loadfile"] =>
-      match load md variant s.raw with
+      match load md fixes s.raw with
       | .reject => ({ s with loaded := none, sampler := none }, some "reject")
       | .loaderr => ({ s with loaded := none, sampler := none }, some "loaderr")
       | .ok c => ({ s with loaded := some c, sampler := none }, some "accept")
@@ -160,14 +171,14 @@ def step (s : St) (op : List String) (exts : List (List String)) : St × Option 
       match s.loaded with
       | none => (s, some "noload")
       | some c =>
-        match reqKeyFields variant c with
+        match reqKeyFields fixes c with
         | .ok _ => (s, some "ok")
         | .error e => (s, some (crashStr e))
     | ["start"] =>
       match s.loaded with
       | none => (s, some "noload")
       | some c =>
-        match start variant c with
+        match start fixes c with
         | .ok sm => ({ s with sampler := some sm }, some "ok")
         | .error e => ({ s with sampler := none }, some (crashStr e))
     | ["eval", _] =>
@@ -175,7 +186,7 @@ def step (s : St) (op : List String) (exts : List (List String)) : St × Option 
       | none => (s, some "nostart")
       | some sm =>
         if samplerFast sm then (s, some "*") else
-        match eval variant sm (matchBits exts) none with
+        match eval fixes sm (matchBits exts) none with
         | .ok r => (s, some s!"ok rate={r}")
         | .error e => (s, some (crashStr e))
     | _ => (s, some "bad-op")
